@@ -221,6 +221,37 @@ Theorem C01_keys_any_value : forall d now nowms c p hint r d',
 Proof. exact keys_any_value. Qed.
 Print Assumptions C01_keys_any_value.
 
+(* SETRANGE at or past the end of a string (or on a missing key) with a non-empty argument: the
+   result has length offset + len v; the old bytes are in place; EVERY byte between the old length
+   and the offset reads as 0x00 (whatever lay in the executor's buffers); the argument follows; the
+   deadline is kept.  ([nth i new x]: byte i of the stored value.) *)
+Theorem C01_setrange_gap_is_zero : forall d now nowms c k o v hint off old t r d',
+  db_wf d -> lower c = B "setrange" -> atoi64 o = Some off ->
+  (view d now k = Some (VStr old, t) \/ (view d now k = None /\ old = [] /\ t = None)) ->
+  zlength old <= off -> v <> [] -> off + zlength v <= max_len ->
+  exec d now nowms [c; k; o; v] hint = (r, d') ->
+  exists new, view d' now k = Some (VStr new, t) /\ r = RInt (off + zlength v) /\
+    zlength new = off + zlength v /\
+    forall (i : nat) (x : byte),
+      ((i < List.length old)%nat -> nth i new x = nth i old x) /\
+      ((List.length old <= i)%nat -> (i < Z.to_nat off)%nat -> nth i new x = nul) /\
+      ((Z.to_nat off <= i)%nat -> (i < Z.to_nat off + List.length v)%nat -> nth i new x = nth (i - Z.to_nat off) v x).
+Proof. exact setrange_gap_is_zero. Qed.
+Print Assumptions C01_setrange_gap_is_zero.
+
+(* every byte of what SETRANGE writes, for any offset >= 0 (also inside the old value) *)
+Theorem C01_setrange_bytes : forall old off v (x : byte), 0 <= off ->
+  List.length (setrange_of old off v) = Nat.max (List.length old) (Z.to_nat off + List.length v) /\
+  forall i : nat,
+    ((i < Z.to_nat off)%nat -> (i < List.length old)%nat -> nth i (setrange_of old off v) x = nth i old x) /\
+    ((i < Z.to_nat off)%nat -> (List.length old <= i)%nat -> nth i (setrange_of old off v) x = nul) /\
+    ((Z.to_nat off <= i)%nat -> (i < Z.to_nat off + List.length v)%nat ->
+       nth i (setrange_of old off v) x = nth (i - Z.to_nat off) v x) /\
+    ((Z.to_nat off + List.length v <= i)%nat -> (i < List.length old)%nat ->
+       nth i (setrange_of old off v) x = nth i old x).
+Proof. exact setrange_of_bytes. Qed.
+Print Assumptions C01_setrange_bytes.
+
 (* what INCRBYFLOAT stores and replies reads back as the same decimal (sign, digits, scale) *)
 Theorem C01_incrbyfloat_format_roundtrip : forall m e,
   parse_dec (fmt_dec m e) = Some (m <? 0, Z.to_N (Z.abs m), e).
@@ -323,3 +354,11 @@ Print Assumptions C01_every_family_wf_pres.
 Theorem C01_refines_all_families : forall prog d, db_wf d -> Forall step_conforms (run d prog).
 Proof. exact (refines_families AllInv.families_wf_pres). Qed.
 Print Assumptions C01_refines_all_families.
+
+(* the gap of a SETRANGE past the end is zero bytes; a missing key is zero-padded from the start *)
+Example ex_setrange_gap :
+  replies (run empty_db [ st 1000 [B "SET"; B "k"; B "abc"]; st 1000 [B "SETRANGE"; B "k"; B "4"; B "X"];
+                          st 1000 [B "GET"; B "k"]; st 1000 [B "SETRANGE"; B "m"; B "2"; B "Z"]; st 1000 [B "GET"; B "m"] ])
+  = [ rOK; RInt 5; RBulk ("a" :: "b" :: "c" :: "000" :: "X" :: nil)%byte; RInt 3; RBulk ("000" :: "000" :: "Z" :: nil)%byte ].
+Proof. vm_compute. reflexivity. Qed.
+
